@@ -62,6 +62,7 @@ def run(ctx):
         trusted=["golang.org/x/time/rate computes in float64; the model is exact and tolerates either verdict within half a nanosecond of refill around the threshold",
                  "time is simulated for validateUserTOTP by shifting the time fields of state.totpLocalRateLimit (the code reads time.Now() itself); comparisons are kept 120 ms off their boundaries",
                  "recording PasswordAuthenticator installed in RuntimeState.passwordChecker stands for the password backend (scripted answer streams: verdict / error); for Okta the real lib/authenticators/okta PasswordAuthenticator talks to a local httptest authn endpoint",
+                 "an attempt 'served from the cache' is made with remoteDBQueryTimeout = 0 and the cache database refreshed from the primary immediately before (a probe LoadUserProfile under the same conditions must say fromCache); a STALE cache is not exercised (C15's subject)",
                  "concurrent one-time-code probe: an evaluation is recognised by the verdict (accepted, or the internal error of a second enabled device whose stored secret cannot be decrypted); a throttled attempt answers a plain refusal"],
         assumptions=["arrival times at the limiter are non-decreasing (time.Now() is read just before the limiter's lock is taken; reordering of concurrent requests by microseconds is not modelled)",
                      ],
